@@ -647,8 +647,10 @@ class MQTTBaseProtocol(Protocol):
         Handles PINGRESP packet from the server
         '''
         log.debug("<== {packet:7}", packet="PINGRESP")
-        self._pingReq.alarm.cancel()
-        self._pingReq.alarm = None
+        if self._pingReq.alarm is not None:     # an unsolicited or repeated PINGRESP finds no alarm
+            if self._pingReq.alarm.active():
+                self._pingReq.alarm.cancel()
+            self._pingReq.alarm = None
 
 
     # ---------------------------
